@@ -279,6 +279,11 @@ func c08DualTables() []c08Table {
 				t := c08Table{decls: []opDecl{{"+", fPrefix, pp}, {"+", f, ip}}}
 				t.decls = append(t.decls, rest...)
 				ts = append(ts, t)
+				// the same two roles declared in the other order: what a symbol
+				// means must not depend on the order of its declarations
+				t2 := c08Table{decls: []opDecl{{"+", f, ip}, {"+", fPrefix, pp}}}
+				t2.decls = append(t2.decls, rest...)
+				ts = append(ts, t2)
 			}
 		}
 	}
@@ -718,7 +723,7 @@ func RunC08(cfg Config) *report.Report {
 	r := &report.Report{
 		Property: "C08",
 		Contract: "parser.NewParser(ops).Parse(lexer.NewLexer(ops).Lex(src)): same accept / reject and same tree (incl. group nodes) as an independent reference precedence parser over the same operator declarations; minimal, full and doubled parenthesisations of a tree all parse to that tree; a non-associative operator is never chained with itself without parentheses in any context; Position() (Idx, IdxEnd) of every node, operator token and field token equals the rune range of the text it was parsed from; rejection is an error raised by the parser (not a Go run-time fault)",
-		Space: fmt.Sprintf("operator tables on symbols + <> ~ mod, fixity in {prefix, postfix, infixl, infixr, infixn}, power in {5, 5.5, 6}: all 680 multisets of 3 declarations completed by a rotating 4th (no exhaustively enumerated input of the quick tier mentions more than 3 operators), thorough tier also all 3060 multisets of 4 declarations (token strings <= 3 tokens there); plus 36 tables where + is declared prefix and infix/postfix; per table: all operator trees of depth <= 2 and all caterpillar trees (at most one non-atomic operand per node) of depth 3, each rendered with minimal, full and doubled parentheses; all token strings of <= %d tokens over {a ( ) and the 4 operators} (at the full length only those with at least one operand token); every non-associative chain template (chain alone, parenthesised, followed / preceded by every other operator, inside ?:, call, list, member). Built-in table: all token strings of <= %d tokens over {a ( ) [ ] { } , : . ? + == || ! ^} (thorough: also 1 and -; at the full length only those with at least one operand token a 1 [ {); %d seeded random deeper trees per table", tokLen, builtinLen, nRandTrees),
+		Space: fmt.Sprintf("operator tables on symbols + <> ~ mod, fixity in {prefix, postfix, infixl, infixr, infixn}, power in {5, 5.5, 6}: all 680 multisets of 3 declarations completed by a rotating 4th (no exhaustively enumerated input of the quick tier mentions more than 3 operators), thorough tier also all 3060 multisets of 4 declarations (token strings <= 3 tokens there); plus 72 tables where + is declared prefix and infix/postfix, in both declaration orders; per table: all operator trees of depth <= 2 and all caterpillar trees (at most one non-atomic operand per node) of depth 3, each rendered with minimal, full and doubled parentheses; all token strings of <= %d tokens over {a ( ) and the 4 operators} (at the full length only those with at least one operand token); every non-associative chain template (chain alone, parenthesised, followed / preceded by every other operator, inside ?:, call, list, member). Built-in table: all token strings of <= %d tokens over {a ( ) [ ] { } , : . ? + == || ! ^} (thorough: also 1 and -; at the full length only those with at least one operand token a 1 [ {); %d seeded random deeper trees per table", tokLen, builtinLen, nRandTrees),
 		Bound: fmt.Sprintf("tree depth 3 (operator levels), token strings <= %d tokens (user tables) / <= %d tokens (built-in table), seed %d", tokLen, builtinLen, cfg.Seed),
 		Rule:  "distinct = (operator table, source text) by 64-bit FNV-1a hash; non-trivial = at least two tokens (token strings) or at least one operator (trees, counted once per tree by its minimal rendering)",
 	}
